@@ -196,15 +196,15 @@ theorem numInv_final (n : NumSt) (hi : NumInv n) (hf : FinalPhase n.phase) :
     simp only [NoFrac, NoExp] at hp
     cases phase <;> simp only [FinalPhase] at hf <;> simp only at hp
     · obtain ⟨rfl, ⟨rfl, rfl⟩, rfl, rfl, rfl⟩ := hp
-      simp [numParts, Spec.Canon.partsOf, NumSt.parts]
+      simp [numParts, Spec.Canon.partsOf]
     · obtain ⟨hi, ⟨rfl, rfl⟩, rfl, rfl, rfl⟩ := hp
-      simp [numParts, Spec.Canon.partsOf, NumSt.parts]
+      simp [numParts, Spec.Canon.partsOf]
     · obtain ⟨hi, rfl, hne, hd, rfl, rfl, rfl⟩ := hp
-      simp [numParts, Spec.Canon.partsOf, NumSt.parts]
+      simp [numParts, Spec.Canon.partsOf]
     · obtain ⟨hi, hfr, rfl, hne, hd, he⟩ := hp
       have := (exp_ok neg int.reverse (if hasFrac then 0x2e :: frac.reverse else []) expNeg ep expDigits.reverse he (by simpa using hne) (by simpa using hd)).2
       simp only [Spec.Canon.partsOf] at this
-      simp only [numParts, Spec.Canon.partsOf, NumSt.parts, if_true, this]
+      simp only [numParts, Spec.Canon.partsOf, if_true, this]
       cases hasFrac <;> simp
 
 theorem numValue_sem (env : Env) (n : NumSt) (p : NumParts) (v : JV)
